@@ -394,29 +394,37 @@ def unroll(ctx, fr, path, src, body, lo, count):
 
 def heap_writes(entry_arr, post_arr):
     """Store-chain difference: list of (index term, value term) written on top of entry_arr, or None."""
-    writes = []
-    t = post_arr
-    while not z3.eq(t, entry_arr):
-        if z3.is_app(t) and t.decl().kind() == z3.Z3_OP_STORE:
-            writes.append((t.arg(1), t.arg(2)))
+    def chain(t):
+        idxs = []
+        while z3.is_app(t) and t.decl().kind() == z3.Z3_OP_STORE:
+            idxs.append(t.arg(1))
             t = t.arg(0)
-        else:
-            return None
+        return t, idxs
+    root_p, idx_p = chain(post_arr)
+    root_e, idx_e = chain(entry_arr)
+    if not z3.eq(root_p, root_e):
+        return None
+    writes = []
+    seen = set()
+    for i in idx_p + idx_e:
+        if i.get_id() in seen:
+            continue
+        seen.add(i.get_id())
+        a, b = simp(z3.Select(post_arr, i)), simp(z3.Select(entry_arr, i))
+        if not z3.eq(a, b):
+            writes.append((i, a))
     return writes
 
 
 def summarise(ctx, fr, path, src, body, lo, hi, peel):
     from .stmt import exec_block
     where = body.where
-    # ---- 0. the loop may not run at all
-    results = []
-    nonempty = simp(lo < hi)
-    for p0, tv in ctx.branch(path, nonempty, f"loop.nonempty@{where}"):
-        if not tv:
-            results.append((p0, Outcome("fall")))
-            continue
-        results += _summarise_nonempty(ctx, fr, p0, src, body, lo, hi, peel)
-    return results
+    # the summary formulas hold for empty ranges too (fold over an empty range is the unit), so the path is
+    # not split on emptiness; a provably empty range skips the loop
+    d = ctx.decide(path, lo < hi)
+    if d is False:
+        return [(path, Outcome("fall"))]
+    return _summarise_nonempty(ctx, fr, path, src, body, lo, hi, peel)
 
 
 def _summarise_nonempty(ctx, fr, path, src, body, lo, hi, peel):
@@ -425,6 +433,7 @@ def _summarise_nonempty(ctx, fr, path, src, body, lo, hi, peel):
     # carried heap locations are discovered by a fixpoint over trial executions
     heap_locs = []      # list of (field, oid term)
     const_names = {n for n in names if is_literal(path.env[n])}   # first tried as loop-invariant constants
+    was_broken = False
     for _round in range(6):
         K = ctx.new("k", smt.IntS)
         pre = path.fork()
@@ -489,9 +498,8 @@ def _summarise_nonempty(ctx, fr, path, src, body, lo, hi, peel):
                     if gname not in ghost_gens and gname not in new_ghosts and gname in path.ghost:
                         new_ghosts.append(gname)
         if broken:
-            if peel < 2:
-                return peel_once(ctx, fr, path, src, body, lo, hi, peel)
             const_names -= broken
+            was_broken = True
             continue
         if new_locs or new_ghosts:
             heap_locs += new_locs
@@ -706,15 +714,21 @@ def _summarise_nonempty(ctx, fr, path, src, body, lo, hi, peel):
         return True
 
     # triangular resolution: a location may depend on locations that already have a closed form
-    progress = True
-    while progress and any(L.mk is None for L in locs):
-        progress = False
-        for L in locs:
-            if L.mk is None and summarise_location(L):
-                progress = True
-    if any(L.mk is None for L in locs):
-        names_ = ", ".join(str(L.key[1]) for L in locs if L.mk is None)
-        raise Unsupported(f"loop at {where}: mutually dependent accumulated state ({names_}) needs an invariant")
+    try:
+        progress = True
+        while progress and any(L.mk is None for L in locs):
+            progress = False
+            for L in locs:
+                if L.mk is None and summarise_location(L):
+                    progress = True
+        if any(L.mk is None for L in locs):
+            names_ = ", ".join(str(L.key[1]) for L in locs if L.mk is None)
+            raise Unsupported(f"loop at {where}: mutually dependent accumulated state ({names_}) needs an invariant")
+    except Unsupported:
+        # flags that flip in the first iteration (`first = True`): peel one iteration and retry
+        if was_broken and peel < 2:
+            return peel_once(ctx, fr, path, src, body, lo, hi, peel)
+        raise
     for p, o in exit_outs:
         if mentions(close(cond_of(p)), state_consts):
             raise Unsupported(f"loop at {where}: exit condition depends on accumulated state (needs an invariant)")
@@ -812,7 +826,15 @@ def _with_known_contents(ctx, path, v):
 def peel_once(ctx, fr, path, src, body, lo, hi, peel):
     """Execute the first iteration concretely, then summarise the rest."""
     results = []
-    for q, o in one_iteration(ctx, fr, path.fork(), src, body, lo):
+    start = None
+    for p0, tv in ctx.branch(path, simp(lo < hi), f"loop.nonempty@{body.where}"):
+        if not tv:
+            results.append((p0, Outcome("fall")))
+        else:
+            start = p0
+    if start is None:
+        return results
+    for q, o in one_iteration(ctx, fr, start.fork(), src, body, lo):
         if o.kind in ("fall", "continue"):
             rest = IterSrc(simp(lo + 1), hi, src.elem, src.desc, src.unord)
             q.note("loop: first iteration peeled (flag pattern)")
